@@ -55,6 +55,8 @@ func main() {
 		os.Exit(cmdSelftest(os.Args[2:]))
 	case "one":
 		os.Exit(cmdOne(os.Args[2:]))
+	case "seq":
+		os.Exit(cmdSeq(os.Args[2:]))
 	case "build":
 		if err := buildWorker(); err != nil {
 			fmt.Fprintln(os.Stderr, err)
@@ -1309,6 +1311,9 @@ func cmdSelftest(args []string) int {
 						end := w.runCmd(wire.Cmd{Op: "gen", Prop: prop, Tier: "quick", Seed: *seed, From: from, To: *n}, 120*time.Second, func(r *wire.Result) {
 							last = r.Index
 							h := r.TraceHash + "/" + r.Verdict + "/" + r.Sig
+							if os.Getenv("VERIF_SELFTEST_DUMP") != "" {
+								fmt.Printf("HASH proc=%d rep=%d index=%d %s\n", pi, rep, r.Index, h)
+							}
 							mu.Lock()
 							if prev, ok := ref[r.Index]; ok && prev != h {
 								diffs++
@@ -1481,4 +1486,33 @@ func fnv32(s string) uint32 {
 		h = (h ^ uint32(s[i])) * 16777619
 	}
 	return h
+}
+
+// cmdSeq (debug): run scenarios [from,last) in one worker, then scenario `last` with tracing, in the same process.
+func cmdSeq(args []string) int {
+	prop := args[0]
+	from, _ := strconv.Atoi(args[1])
+	last, _ := strconv.Atoi(args[2])
+	seed := uint64(777)
+	if len(args) > 3 {
+		seed, _ = strconv.ParseUint(args[3], 10, 64)
+	}
+	if err := buildWorker(); err != nil {
+		fmt.Fprintln(os.Stderr, err)
+		return 2
+	}
+	w, err := startWorker()
+	if err != nil {
+		return 2
+	}
+	defer w.stop()
+	if last > from {
+		w.runCmd(wire.Cmd{Op: "gen", Prop: prop, Tier: "quick", Seed: seed, From: from, To: last}, 300*time.Second, func(r *wire.Result) {})
+	}
+	var sc *wire.Scenario
+	w.runCmd(wire.Cmd{Op: "scenario", Prop: prop, Tier: "quick", Seed: seed, From: last}, 60*time.Second, func(r *wire.Result) { sc = r.Scenario })
+	res, _ := execOn(w, sc, 60*time.Second, true)
+	b, _ := json.MarshalIndent(res, "", " ")
+	fmt.Println(string(b))
+	return 0
 }
